@@ -148,6 +148,18 @@ func init() {
 		e["ok"] = err == nil
 		return e
 	}
+	// sem.ComparePreRelease is consulted by Ver.Compare exactly when the cores are equal
+	ops["ovr.cmp"] = func(e Ev) Ev {
+		a, b := mkVer(e["a"]), mkVer(e["b"])
+		calls := 0
+		old := sem.ComparePreRelease
+		sem.ComparePreRelease = func(string, string) int { calls++; return num(e["stub"]) }
+		e["res"] = a.Compare(b)
+		sem.ComparePreRelease = old
+		e["calls"] = calls
+		e["plain"] = a.Compare(b)
+		return e
+	}
 	drivers["ovr"] = func(d *Drv) {
 		type pk struct {
 			pkg  string
@@ -161,6 +173,15 @@ func init() {
 			{"sem", []any{ver("1", "2", "3", "", ""), ver("0", "0", "1", "rc.1", "b")}, ver("7", "7", "7", "", ""), []string{"1.2.3", "nonsense", ""}},
 			{"size", []any{dig(0), dig(1024), dig(1234567), dig(18446744073709551615)}, dig(5), []string{"1KiB", "nonsense", ""}},
 			{"uu", []any{make([]int, 32), randID(d)}, make([]int, 32), []string{"123e4567-e89b-12d3-a456-426614174000", "nonsense", ""}},
+		}
+		if d.Mine(2) {
+			for _, c := range [][2]Ev{{ver("1", "2", "3", "a", ""), ver("1", "2", "3", "b", "")}, {ver("1", "2", "3", "", ""), ver("1", "2", "3", "rc", "x")},
+				{ver("1", "2", "3", "b", ""), ver("1", "2", "4", "a", "")}, {ver("2", "0", "0", "a", ""), ver("1", "9", "9", "", "")}, {ver("1", "2", "3", "same", "x"), ver("1", "2", "3", "same", "y")}} {
+				for _, stub := range []int{-1, 0, 1} {
+					d.Do(Ev{"op": "ovr.cmp", "a": c[0], "b": c[1], "stub": stub, "st": 1})
+				}
+			}
+			d.S.Boundary()
 		}
 		modes := []string{"default", "error", "stub"}
 		for pi, p := range pks {
